@@ -5,7 +5,13 @@ use crate::prelude::*;
 use bevy::prelude::*;
 
 //standard shortcuts
+use std::sync::atomic::{AtomicU64, Ordering};
 
+//-------------------------------------------------------------------------------------------------------------------
+//-------------------------------------------------------------------------------------------------------------------
+
+/// Source of tickets that tie 'prepared' reaction metadata to the command that prepared it.
+static NEXT_SETUP_TICKET: AtomicU64 = AtomicU64::new(1);
 
 //-------------------------------------------------------------------------------------------------------------------
 //-------------------------------------------------------------------------------------------------------------------
@@ -41,19 +47,26 @@ fn cleanup_on_abort(world: &mut World, setup: SystemCommandSetup, cleanup: Syste
 pub(crate) struct SystemCommandSetup
 {
     reactor: SystemCommand,
-    setup: fn(&mut World, SystemCommand),
+    /// Identifies the metadata prepared for this specific command (a system may have several commands pending).
+    ticket: u64,
+    setup: fn(&mut World, SystemCommand, u64),
 }
 
 impl SystemCommandSetup
 {
-    pub(crate) fn new(reactor: SystemCommand, setup: fn(&mut World, SystemCommand)) -> Self
+    pub(crate) fn new(reactor: SystemCommand, setup: fn(&mut World, SystemCommand, u64)) -> Self
     {
-        Self { reactor, setup }
+        Self { reactor, ticket: NEXT_SETUP_TICKET.fetch_add(1, Ordering::Relaxed), setup }
+    }
+
+    pub(crate) fn ticket(&self) -> u64
+    {
+        self.ticket
     }
 
     fn run(self, world: &mut World)
     {
-        (self.setup)(world, self.reactor);
+        (self.setup)(world, self.reactor, self.ticket);
     }
 }
 
@@ -63,7 +76,8 @@ impl Default for SystemCommandSetup
     {
         Self{
             reactor: SystemCommand(Entity::PLACEHOLDER),
-            setup: |_, _| {}
+            ticket: 0,
+            setup: |_, _, _| {}
         }
     }
 }
